@@ -26,6 +26,15 @@ var vhParsedObj interface{}
 var vhParseErr bool
 
 func vhDecodeAndParse(pemBytes []byte) (*pem.Block, interface{}, error) {
+	if vStubOn("pemconst") && vIsSymbolic() {
+		// engine only: the harness' real PEM constants map to typed key objects;
+		// the native replay parses the real PEMs with the real function
+		b, k, err := vhSVDecodeAndParsePEM(pemBytes)
+		if err != nil {
+			return nil, nil, ErrNoPEMBlock
+		}
+		return b, k, nil
+	}
 	if !vStubOn("x509") {
 		return decodeAndParse(pemBytes)
 	}
